@@ -1,7 +1,7 @@
 (* Array::operator()(i0,...,ik) as tools/gen_slice.py reads it from Array.h on every run (the two update_index helpers,
    the rank-1 ranged operator, the skeleton of the multi-argument overloads), re-assembled and proved to be the model's
    [slice] (View.v) for every view and every index list. *)
-From Coq Require Import ZArith List Lia.
+From Coq Require Import ZArith List Lia ZifyBool.
 From Adept Require Import View.
 From AdeptGen Require Import Gen_Slice.
 Import ListNotations.
@@ -47,7 +47,7 @@ Proof. intros. reflexivity. Qed.
 Definition gen_diag_vector (v : view) (k : Z) : view :=
   match dims v, strides v with
   | [d0; d1], [s0; s1] =>
-      if k >=? 0 then mkView (dgp_base (base v) d0 d1 s0 s1 k) [dgp_dim (base v) d0 d1 s0 s1 k] [dgp_stride (base v) d0 d1 s0 s1 k]
+      if dg_first_branch k then mkView (dgp_base (base v) d0 d1 s0 s1 k) [dgp_dim (base v) d0 d1 s0 s1 k] [dgp_stride (base v) d0 d1 s0 s1 k]
       else mkView (dgn_base (base v) d0 d1 s0 s1 k) [dgn_dim (base v) d0 d1 s0 s1 k] [dgn_stride (base v) d0 d1 s0 s1 k]
   | _, _ => v
   end.
@@ -57,12 +57,16 @@ Definition gen_submatrix_on_diagonal (v : view) (ib ie : Z) : view :=
   | _, _ => v
   end.
 
+(* from what the branches compute: a branch test that differs from the model's only at offdiag = 0, where the two
+   branches agree, still passes *)
 Lemma gen_diag_vector_eq : forall v k, gen_diag_vector v k = diag_vector v k.
 Proof.
   intros v k. unfold gen_diag_vector, diag_vector.
   destruct (dims v) as [|d0 [|d1 [|? ?]]]; try reflexivity.
   destruct (strides v) as [|s0 [|s1 [|? ?]]]; try reflexivity.
-  all: rewrite Z.geb_leb; reflexivity.
+  unfold dgp_base, dgp_dim, dgp_stride, dgn_base, dgn_dim, dgn_stride.
+  destruct (dg_first_branch k) eqn:E1; destruct (Z.leb_spec 0 k) as [H|H]; try reflexivity; unfold dg_first_branch in E1;
+    assert (Hk : k = 0) by lia; subst k; rewrite !Z.mul_0_r, !Z.add_0_r, !Z.sub_0_r; reflexivity.
 Qed.
 Lemma gen_submatrix_on_diagonal_eq : forall v ib ie, gen_submatrix_on_diagonal v ib ie = submatrix_on_diagonal v ib ie.
 Proof.
